@@ -31,12 +31,26 @@ func c06IsSpace(c byte) bool {
 	return c == ' ' || c == '\t' || c == '\n' || c == '\v' || c == '\f' || c == '\r' || c == 0x85 || c == 0xA0
 }
 
+func c06HasQuestionMark(s string) bool {
+	for i := 0; i < len(s); i++ {
+		if s[i] == '?' {
+			return true
+		}
+	}
+	return false
+}
+
 func c06Known(a any) {
 	switch v := a.(type) {
 	case RemoteSource:
 		verif.Known("KF-C06-url-noncanonical", c06RemoteNoncanonical(v.pkg, v.subPath))
 	case RemotePackage:
 		verif.Known("KF-C06-url-noncanonical", c06RemoteNoncanonical(v, ""))
+	case RegistrySource:
+		// a registry address is not a URL, but its sub-path is still cut at the first '?'
+		verif.Known("KF-C06-url-noncanonical", c06HasQuestionMark(v.subPath))
+	case RegistrySourceFinal:
+		verif.Known("KF-C06-url-noncanonical", c06HasQuestionMark(v.src.subPath))
 	}
 }
 
